@@ -284,7 +284,8 @@ theorem frag_second_pass_tokens (f2 : File) (hwf : f2.wf = true) :
 
 /-- FIXED POINT FOR COMMENT-FREE FILES. For every well-formed file of the fragment without comments
     (nested sets / `rec` sets / lists / bindings / parenthesised expressions / function calls /
-    `with e; body` / select `e.a.b` / `or default` / lambda `x: body` / unary and binary operators / leaves
+    `with e; body` / select `e.a.b` / `or default` / lambda `x: body` / unary and binary operators /
+    `if c then a else b` / has-attr `e ? a.b` / leaves
     with arbitrary whitespace, any depth; not `assert`, and no `-` in front of an expression whose first
     token is a path literal, which the output fuses into one token — `Cst.fusesMinus`,
     `C01.cex_unary_minus_path_fused`: `Cst.cf`), the
@@ -302,7 +303,10 @@ theorem frag_second_pass_tokens (f2 : File) (hwf : f2.wf = true) :
     indentation `_resolve_right_operand` gives it: `binRightIndentC`; the environment of a `with` follows
     after one space or on its own line at the indentation read from the gap, `;` attached, the body on its
     own line at the current indentation when the source has a line break around the `;`, else after one
-    space when it is a set / list, else on its own line when it spans several lines, else after one space)
+    space when it is a set / list, else on its own line when it spans several lines, else after one space;
+    the condition, `then`, the consequence, `else` and the alternative of an `if`, the `?` of a has-attr and its
+    attrpath each follow after one space or on their own line — one blank line kept — at the indentation read
+    from the gap: `sepGap` / `sepIndent`)
     — and
     the round trip of that tree writes the same text again (`File.norm` is idempotent). `File.norm f`
     is the tree tree-sitter returns for the output: compared with the real tree, node by node, on
@@ -374,6 +378,18 @@ def canonicalSample : File :=
 
 example : canonicalSample.flatten = "# h\n{\n  a = 1; # e\n  # o\n\n  b = [\n    x\n  ];\n}\n".toList := by decide
 example : canonicalSample.wf = true ∧ isFixedPoint canonicalSample = true := by decide
+
+/-- `if a  ?⏎ b.c⏎⏎⏎then⏎  [ x ]⏎else { }`: the normaliser on `if` and has-attr -/
+def ifCfSample : File :=
+  { items := .elem []
+      (.ite [] " ".toList (.has (.leaf .ident "a".toList) [] "  ".toList [] "\n ".toList ["b".toList, "c".toList])
+        [] "\n\n\n".toList [] "\n  ".toList (.list (.elem " ".toList (.leaf .ident "x".toList) .nil) " ".toList)
+        [] "\n".toList [] " ".toList (.set false [] .nil " ".toList)) .nil,
+    endGap := [] }
+
+example : ifCfSample.wf = true ∧ ifCfSample.cf = true ∧ ifCfSample.noLeadingWs = true := by decide
+example : ifCfSample.norm.flatten = "if a ?\n b.c\n\nthen\n  [ x ]\nelse { }".toList := by decide
+example : ifCfSample.roundtrip = .ok ifCfSample.norm.flatten := by decide
 
 end Fragment
 
